@@ -90,17 +90,19 @@ Definition iso_total_codewords (v : nat) : nat := length (iso_data_coords v) / 8
 Definition iso_remainder_bits (v : nat) : nat := length (iso_data_coords v) mod 8.
 
 (* ---------------------------------------------------------------- Table 10 *)
-Definition iso_cond (mask i j : nat) : bool :=
+(* i = row, j = column; evaluated over binary numbers *)
+Definition iso_condN (mask : nat) (i j : N) : bool :=
   match mask with
-  | 0 => (i + j) mod 2 =? 0
-  | 1 => i mod 2 =? 0
-  | 2 => j mod 3 =? 0
-  | 3 => (i + j) mod 3 =? 0
-  | 4 => (i / 2 + j / 3) mod 2 =? 0
-  | 5 => (i * j) mod 2 + (i * j) mod 3 =? 0
-  | 6 => ((i * j) mod 2 + (i * j) mod 3) mod 2 =? 0
-  | _ => ((i + j) mod 2 + (i * j) mod 3) mod 2 =? 0
+  | 0 => ((i + j) mod 2 =? 0)%N
+  | 1 => (i mod 2 =? 0)%N
+  | 2 => (j mod 3 =? 0)%N
+  | 3 => ((i + j) mod 3 =? 0)%N
+  | 4 => ((i / 2 + j / 3) mod 2 =? 0)%N
+  | 5 => ((i * j) mod 2 + (i * j) mod 3 =? 0)%N
+  | 6 => (((i * j) mod 2 + (i * j) mod 3) mod 2 =? 0)%N
+  | _ => (((i + j) mod 2 + (i * j) mod 3) mod 2 =? 0)%N
   end.
+Definition iso_cond (mask i j : nat) : bool := iso_condN mask (N.of_nat i) (N.of_nat j).
 
 (* ---------------------------------------------------------------- BCH words *)
 (* remainder of x (deg < total bits) modulo generator g of degree d, over GF(2), most significant bit first *)
